@@ -23,7 +23,7 @@ FINDINGS = os.path.join(VERIF, "known_findings.txt")
 SAN_ENV = {
     "ASAN_OPTIONS": "abort_on_error=1:detect_leaks=0:handle_abort=0:allocator_may_return_null=1:detect_stack_use_after_return=0",
     "UBSAN_OPTIONS": "print_stacktrace=1:halt_on_error=1:abort_on_error=1",
-    "TSAN_OPTIONS": "halt_on_error=0:second_deadlock_stack=1:report_signal_unsafe=0",
+    "TSAN_OPTIONS": "halt_on_error=0:exitcode=0:second_deadlock_stack=1:report_signal_unsafe=0",
 }
 
 
